@@ -331,33 +331,39 @@ class RSNorm(AgentWrapper):
         else:
             return RunningMeanStd(epsilon, shape=observation_space.shape, device=device)
 
-    def _normalize_observation(self, observation: ObservationType) -> ObservationType:
+    def _normalize_observation(
+        self, observation: ObservationType, obs_rms: Optional[Any] = None
+    ) -> ObservationType:
         """Normalizes the observation using the RunningMeanStd object(s).
 
         :param observation: Observation from the environment
         :type observation: ObservationType
+        :param obs_rms: Running statistics to use, defaults to those of the (single) agent
+        :type obs_rms: Optional[Any]
 
         :return: Normalized observation
         :rtype: ObservationType
         """
-        if isinstance(self.obs_rms, dict):
+        # NOTE: In multi-agent settings each agent has its own running statistics
+        obs_rms = self.obs_rms if obs_rms is None else obs_rms
+        if isinstance(obs_rms, dict):
             norm_observation = {}
-            for key, rms in self.obs_rms.items():
+            for key, rms in obs_rms.items():
                 norm_observation[key] = (observation[key] - rms.mean) / (
                     rms.var + rms.epsilon
                 ).sqrt()
 
             observation = norm_observation
-        elif isinstance(self.obs_rms, tuple):
+        elif isinstance(obs_rms, tuple):
             norm_observation = []
-            for i, rms in enumerate(self.obs_rms):
+            for i, rms in enumerate(obs_rms):
                 norm_obs = (observation[i] - rms.mean) / (rms.var + rms.epsilon).sqrt()
                 norm_observation.append(norm_obs)
 
             observation = tuple(norm_observation)
         else:
-            observation = (observation - self.obs_rms.mean) / (
-                self.obs_rms.var + self.obs_rms.epsilon
+            observation = (observation - obs_rms.mean) / (
+                obs_rms.var + obs_rms.epsilon
             ).sqrt()
 
         return observation
@@ -372,26 +378,32 @@ class RSNorm(AgentWrapper):
         :rtype: ObservationType
         """
         if self.multi_agent:
-            for agent_id, obs in observation.items():
-                observation[agent_id] = self._normalize_observation(obs)
-            return observation
+            return {
+                agent_id: self._normalize_observation(obs, self.obs_rms[agent_id])
+                for agent_id, obs in observation.items()
+            }
 
         return self._normalize_observation(observation)
 
-    def _update_statistics(self, observation: ObservationType) -> None:
+    def _update_statistics(
+        self, observation: ObservationType, obs_rms: Optional[Any] = None
+    ) -> None:
         """Updates the running statistics using the observation.
 
         :param observation: Observation from the environment
         :type observation: ObservationType
+        :param obs_rms: Running statistics to update, defaults to those of the (single) agent
+        :type obs_rms: Optional[Any]
         """
-        if isinstance(self.obs_rms, dict):
-            for key, rms in self.obs_rms.items():
+        obs_rms = self.obs_rms if obs_rms is None else obs_rms
+        if isinstance(obs_rms, dict):
+            for key, rms in obs_rms.items():
                 rms.update(observation[key])
-        elif isinstance(self.obs_rms, tuple):
-            for i, rms in enumerate(self.obs_rms):
+        elif isinstance(obs_rms, tuple):
+            for i, rms in enumerate(obs_rms):
                 rms.update(observation[i])
         else:
-            self.obs_rms.update(observation)
+            obs_rms.update(observation)
 
     def update_statistics(self, observation: ObservationType) -> None:
         """Updates the running statistics using the observation.
@@ -400,8 +412,8 @@ class RSNorm(AgentWrapper):
         :type observation: ObservationType
         """
         if self.multi_agent:
-            for _, obs in observation.items():
-                self._update_statistics(obs)
+            for agent_id, obs in observation.items():
+                self._update_statistics(obs, self.obs_rms[agent_id])
         else:
             self._update_statistics(observation)
 
